@@ -4,7 +4,11 @@
 use std::{env, fs, path::PathBuf};
 
 fn main() {
-    let src = "/repo/insim_core/src/track.rs";
+    // IVH_REPO lets the self-test build the harness against a scratch copy of the repository
+    println!("cargo:rerun-if-env-changed=IVH_REPO");
+    let repo = env::var("IVH_REPO").unwrap_or_else(|_| "/repo".to_string());
+    let src = format!("{repo}/insim_core/src/track.rs");
+    let src = src.as_str();
     println!("cargo:rerun-if-changed={}", src);
     println!("cargo:rerun-if-changed=build.rs");
     let text = fs::read_to_string(src).expect("cannot read track.rs");
